@@ -205,22 +205,35 @@ func (w *World) genLemmaUnits(us *UnitSpec) []*GenUnit {
 	return out
 }
 
-// caseSubst recognises `param.Field == literal`.
-func caseSubst(c Clause) (param, field string, lit *Term, ok bool) {
-	be, isBin := c.Expr.(*ast.BinaryExpr)
-	if !isBin || be.Op != token.EQL {
+type substT struct {
+	param, field string
+	lit          *Term
+}
+
+// caseSubsts splits a case condition into substitutable conjuncts `param.Field == literal` and the rest.
+func caseSubsts(x ast.Expr, subs *[]substT, rest *[]ast.Expr) {
+	switch n := x.(type) {
+	case *ast.ParenExpr:
+		caseSubsts(n.X, subs, rest)
 		return
+	case *ast.BinaryExpr:
+		if n.Op == token.LAND {
+			caseSubsts(n.X, subs, rest)
+			caseSubsts(n.Y, subs, rest)
+			return
+		}
+		if n.Op == token.EQL {
+			if se, ok := n.X.(*ast.SelectorExpr); ok {
+				if id, ok := se.X.(*ast.Ident); ok {
+					if bl, ok := n.Y.(*ast.BasicLit); ok && bl.Kind == token.INT {
+						*subs = append(*subs, substT{id.Name, se.Sel.Name, bigLit(bl.Value)})
+						return
+					}
+				}
+			}
+		}
 	}
-	se, isSel := be.X.(*ast.SelectorExpr)
-	if !isSel {
-		return
-	}
-	id, isId := se.X.(*ast.Ident)
-	bl, isLit := be.Y.(*ast.BasicLit)
-	if !isId || !isLit || bl.Kind != token.INT {
-		return
-	}
-	return id.Name, se.Sel.Name, bigLit(bl.Value), true
+	*rest = append(*rest, x)
 }
 
 func (w *World) genLemmaCase(lm *Lemma, base string, c Clause) (g *GenUnit) {
@@ -245,9 +258,10 @@ func (w *World) genLemmaCase(lm *Lemma, base string, c Clause) (g *GenUnit) {
 	st := newState()
 	e.frontier(st)
 	bound := map[string]SV{}
-	sp, sf, slit, subst := "", "", (*Term)(nil), false
+	var subs []substT
+	var rest []ast.Expr
 	if c.Expr != nil {
-		sp, sf, slit, subst = caseSubst(c)
+		caseSubsts(c.Expr, &subs, &rest)
 	}
 	for i, p := range lm.Params {
 		t, err := resolveTypeString(lm.Pkg, lm.PTypes[i])
@@ -255,21 +269,24 @@ func (w *World) genLemmaCase(lm *Lemma, base string, c Clause) (g *GenUnit) {
 			panic("lemma " + lm.Name + ": " + err.Error())
 		}
 		sv := e.freshSV(t, p, tTrue, true)
-		if subst && p == sp {
+		for si := range subs {
+			if subs[si].param != p {
+				continue
+			}
 			stt := structOf(t)
 			done := false
 			if sv2, ok := sv.(*StructV); ok && stt != nil {
 				for fi := 0; fi < stt.NumFields(); fi++ {
-					if stt.Field(fi).Name() == sf {
+					if stt.Field(fi).Name() == subs[si].field {
 						if sc, ok := sv2.Fields[fi].(*Scalar); ok && sc.T.Sort == SInt {
-							sv2.Fields[fi] = &Scalar{T: slit, Ty: sc.Ty}
+							sv2.Fields[fi] = &Scalar{T: subs[si].lit, Ty: sc.Ty}
 							done = true
 						}
 					}
 				}
 			}
 			if !done {
-				subst = false
+				panic("case " + c.Name + ": cannot substitute " + p + "." + subs[si].field)
 			}
 		}
 		e.saneInput(st, t, sv, tTrue)
@@ -288,24 +305,26 @@ func (w *World) genLemmaCase(lm *Lemma, base string, c Clause) (g *GenUnit) {
 		return &SpecEnv{e: e, fr: fr0, st: st, bound: b, cs: w.CS, pkg: lm.Pkg, expandFn: expand}
 	}
 	for _, r := range lm.Requires {
-		e.assume(scal(mkEnv(false).eval(r.Expr)))
+		e.assume(scal(mkEnv(true).eval(r.Expr))) // real calls in a requires are expanded too (their facts are needed)
 	}
 	cond := tTrue
-	if c.Expr != nil && !subst {
-		cond = scal(mkEnv(false).eval(c.Expr))
+	for _, r := range rest {
+		cond = and(cond, scal(mkEnv(false).eval(r)))
 	}
 	// goals first: evaluating them expands the real functions and fixes the exit indices the uses refer to
 	type goal struct {
 		label   string
 		t       *Term
 		touched map[string]bool
+		lo, hi  int // assumptions made while evaluating the goal (its expansions, unfoldings of spec functions)
 	}
 	baseN := len(e.assumes)
 	var goals []goal
 	for i, en := range lm.Ensures {
 		e.touched = map[string]bool{}
+		lo := len(e.assumes)
 		t := scal(mkEnv(true).evalGoal(en.Expr))
-		goals = append(goals, goal{clauseLabel(en, "ensures", i), t, e.touched})
+		goals = append(goals, goal{clauseLabel(en, "ensures", i), t, e.touched, lo, len(e.assumes)})
 	}
 	e.lemmaLocal = e.goalLocal
 	e.goalLocal = nil
@@ -346,8 +365,12 @@ func (w *World) genLemmaCase(lm *Lemma, base string, c Clause) (g *GenUnit) {
 		sort.Strings(keys)
 		for _, k := range keys {
 			seg := e.segments[k]
+			if seg[0] >= gl.lo && seg[1] <= gl.hi {
+				continue // inside the goal's own range, added below
+			}
 			as = append(as, e.assumes[seg[0]:seg[1]]...)
 		}
+		as = append(as, e.assumes[gl.lo:gl.hi]...)
 		for _, u := range uses {
 			if subset(u.touched, gl.touched) {
 				as = append(as, e.assumes[u.lo:u.hi]...)
@@ -386,12 +409,23 @@ func (w *World) lemmaInstance(e *Exec, cur *Lemma, env *SpecEnv, u Clause) *Term
 	if len(call.Args) != len(lm.Params) {
 		panic("use " + name + ": wrong number of arguments")
 	}
-	if lm == cur {
-		for _, a := range call.Args {
-			if !isElementOfParam(a, cur) {
-				panic("use " + name + ": the induction hypothesis may only be applied to elements of the lemma's parameters (structurally smaller values): " + u.Src)
-			}
+	// well-foundedness of (mutually) recursive lemma uses, by a syntactic criterion: structured arguments must be
+	// sub-terms of the current lemma's parameters (never larger); a use of the lemma itself or of a lemma declared
+	// later must strictly decrease (an element of a parameter, or an int parameter p replaced by p-1 with 0 <= p
+	// required). Any cycle of uses then contains a strict step and no increasing step.
+	strict := false
+	for i, a := range call.Args {
+		kind := classifyArg(a, cur, lm, i)
+		switch kind {
+		case "scalar", "sub":
+		case "strict":
+			strict = true
+		default:
+			panic("use " + name + ": argument " + fmt.Sprint(i+1) + " is not a sub-term of the lemma's parameters: " + u.Src)
 		}
+	}
+	if w.CS.lemmaIndex(name) >= w.CS.lemmaIndex(cur.Name) && !strict {
+		panic("use " + name + ": a use of the lemma itself (or of a later lemma) needs a strictly smaller argument: " + u.Src)
 	}
 	sub := &SpecEnv{e: e, fr: env.fr, st: env.st, bound: map[string]SV{}, cs: w.CS, pkg: lm.Pkg, expandFn: false, unfold: 1}
 	for i, p := range lm.Params {
@@ -405,6 +439,76 @@ func (w *World) lemmaInstance(e *Exec, cur *Lemma, env *SpecEnv, u Clause) *Term
 		ens = append(ens, scal(sub.eval(en.Expr)))
 	}
 	return implies(and(req...), and(ens...))
+}
+
+func (cs *Contracts) lemmaIndex(name string) int {
+	for i, n := range cs.LemmaOrder {
+		if n == name {
+			return i
+		}
+	}
+	return -1
+}
+
+func lemmaParamType(lm *Lemma, name string) string {
+	for i, p := range lm.Params {
+		if p == name {
+			return lm.PTypes[i]
+		}
+	}
+	return ""
+}
+
+func isBasicTypeName(t string) bool {
+	switch t {
+	case "int", "int64", "uint64", "bool", "string", "float64", "uint", "int32":
+		return true
+	}
+	return false
+}
+
+// classifyArg: "scalar" (basic-typed target parameter: any expression), "sub" (parameter or field chain of one),
+// "strict" (contains an element access, or is p-1 for an int parameter p with 0 <= p required), "" otherwise.
+func classifyArg(x ast.Expr, cur, target *Lemma, pos int) string {
+	if pos < len(target.PTypes) && isBasicTypeName(target.PTypes[pos]) {
+		// p - 1 for an int parameter of the current lemma that is required to be non-negative
+		if be, ok := x.(*ast.BinaryExpr); ok && be.Op == token.SUB {
+			if id, ok := be.X.(*ast.Ident); ok && lemmaParamType(cur, id.Name) == "int" {
+				if bl, ok := be.Y.(*ast.BasicLit); ok && bl.Value == "1" {
+					for _, r := range cur.Requires {
+						if strings.Contains(strings.ReplaceAll(r.Src, " ", ""), "0<="+id.Name) {
+							return "strict"
+						}
+					}
+				}
+			}
+		}
+		return "scalar"
+	}
+	strict := false
+	for {
+		switch n := x.(type) {
+		case *ast.ParenExpr:
+			x = n.X
+			continue
+		case *ast.IndexExpr:
+			strict = true
+			x = n.X
+			continue
+		case *ast.SelectorExpr:
+			x = n.X
+			continue
+		case *ast.Ident:
+			if lemmaParamType(cur, n.Name) != "" {
+				if strict {
+					return "strict"
+				}
+				return "sub"
+			}
+			return ""
+		}
+		return ""
+	}
 }
 
 // isElementOfParam: X.List[i] / X.Struct[i] / X.Tuple[i] (or a slice parameter's element s[i]) for a parameter X.
